@@ -101,7 +101,7 @@ Proof.
 Qed.
 Theorem resolve_impl_total : forall base ref, resolve_impl base ref <> None.
 Proof.
-  intros base ref. unfold resolve_impl, resolve_gen.
+  intros base ref. unfold resolve_impl. unfold resolve_gen.
   destruct (p_scheme (parse5 ref)); [discriminate|].
   destruct ref as [|c rest]; [discriminate|].
   set (ha := match p_authority (parse5 base) with Some _ => true | None => false end).
@@ -223,13 +223,13 @@ Theorem resolve_impl_no_path_spec : forall base ref,
   resolve_impl base ref = Some (resolve base ref).
 Proof.
   intros base ref H. destruct ref as [|c rest].
-  - unfold resolve_impl, resolve, transform. rewrite parse5_empty. cbn [p_scheme p_authority p_path p_query p_fragment].
+  - unfold resolve_impl. unfold resolve_gen, resolve, transform. rewrite parse5_empty. cbn [p_scheme p_authority p_path p_query p_fragment].
     unfold recompose. cbn [p_scheme p_authority p_path p_query p_fragment].
     destruct (p_query (parse5 base)); rewrite ?app_nil_r, <- ?app_assoc; reflexivity.
   - apply orb_true_iff in H. destruct H as [H|H]; apply N.eqb_eq in H; subst c.
     + pose proof (parse5_query_ref rest) as P.
       destruct (split_first (N.eqb k_hash) rest) as [a f] eqn:E.
-      unfold resolve_impl, resolve_gen, resolve, transform. rewrite P.
+      unfold resolve_impl. unfold resolve_gen, resolve, transform. rewrite P.
       cbn [p_scheme p_authority p_path p_query p_fragment].
       change (N.eqb k_qmark k_slash) with false. change (N.eqb k_qmark k_qmark) with true. cbv iota.
       unfold recompose. cbn [p_scheme p_authority p_path p_query p_fragment].
@@ -237,7 +237,7 @@ Proof.
       rewrite (split_first_app _ _ _ _ E). simpl. f_equal. f_equal.
       destruct f as [[d r]|]; [|reflexivity]. simpl.
       pose proof (split_first_char _ _ _ _ _ E) as Hd. apply N.eqb_eq in Hd. subst d. reflexivity.
-    + unfold resolve_impl, resolve_gen, resolve, transform. rewrite parse5_frag_ref.
+    + unfold resolve_impl. unfold resolve_gen, resolve, transform. rewrite parse5_frag_ref.
       cbn [p_scheme p_authority p_path p_query p_fragment].
       change (N.eqb k_hash k_slash) with false. change (N.eqb k_hash k_qmark) with false.
       change (N.eqb k_hash k_hash) with true. cbv iota.
